@@ -34,7 +34,9 @@ RULE = (
     "matrices incl. invalid rows, several days, empty days through StochasticEvents."
     "generate_events with sample() overridden: floor(hours*60/p), invalid rows skipped, ids by row "
     "index, max_len cap in the generator's own unit (hours, pinned by the existing tests), "
-    "force_feasible cap, capacity function called with the stay in periods. (fit) batt_cap_fn for "
+    "force_feasible cap, capacity function called with the stay in periods. (clipping) "
+    "GaussianMixtureEvents around a stub mixture: clip_samples / sample project every column into "
+    "its bounds and generate_events converts exactly the clipped rows. (fit) batt_cap_fn for "
     "all (energy, stay >= 1, voltage, period incl. periods that do not divide 60): 0 <= init <= "
     "cap, cap - init >= request - 1e-6 and a Linear2StageBattery(cap, init, 32 V/1000) charged at "
     "32 A for the stay delivers the request within 1e-6 kWh; ValueError only if no listed "
@@ -454,6 +456,67 @@ def stochastic_cases(draw):
     return {"period": period, "voltage": V, "max_power": draw(st.sampled_from([3.3, 6.6, 32 * V / 1000])), "max_len": draw(st.sampled_from([None, None, 1, 3, 12])), "force_feasible": draw(st.booleans()), "battery_params": bp, "days": days}
 
 
+# --------------------------------------------------------------------------- clipping
+
+
+class StubMixture:
+    """Stands in for a trained sklearn GaussianMixture: sample(n) -> (matrix, labels)."""
+
+    def __init__(self, rows):
+        self.rows = [list(r) for r in rows]
+        self.calls = []
+
+    def sample(self, n):
+        self.calls.append(n)
+        return np.array(self.rows[:n], dtype=float).reshape(-1, 3), np.zeros(n)
+
+
+def prop_clipping(spec, rec):
+    from acnportal.acnsim.events.stochastic_events import GaussianMixtureEvents
+
+    b = spec["bounds"]
+    rows = spec["rows"]
+    gen = GaussianMixtureEvents(b["amin"], b["amax"], b["dmin"], b["dmax"], b["emin"], b["emax"], pretrained_model=StubMixture(rows))
+    want = [[min(max(r[0], b["amin"]), b["amax"]), min(max(r[1], b["dmin"]), b["dmax"]), min(max(r[2], b["emin"]), b["emax"])] for r in rows]
+    raw = np.array(rows, dtype=float).reshape(-1, 3)
+    out = gen.clip_samples(raw)
+    require(out is raw or np.array_equal(out, raw), "clip_returns_the_clipped_matrix", "clip_samples returned something else than the (in place) clipped matrix")
+    require(np.array_equal(np.asarray(out, dtype=float), np.array(want, dtype=float).reshape(-1, 3)), "clip_projects_into_bounds", lambda: "clip_samples(%r) with bounds %r = %r, expected %r" % (rows, b, np.asarray(out).tolist(), want))
+    got = gen.sample(len(rows))
+    require(np.array_equal(np.asarray(got, dtype=float).reshape(-1, 3), np.array(want, dtype=float).reshape(-1, 3)), "sample_is_clipped", lambda: "sample() = %r, clipped model output %r" % (np.asarray(got).tolist(), want))
+    require(len(np.asarray(gen.sample(0)).reshape(-1)) == 0, "sample_zero", "sample(0) is not empty")
+    # through generate_events: every clipped row is a valid session (bounds are positive)
+    period = spec["period"]
+    import contextlib
+    import io
+
+    gen2 = GaussianMixtureEvents(b["amin"], b["amax"], b["dmin"], b["dmax"], b["emin"], b["emax"], pretrained_model=StubMixture(rows))
+    with contextlib.redirect_stdout(io.StringIO()):
+        q = gen2.generate_events([len(rows)], period, 208.0, 6.6)
+    evs = {e.ev.session_id: e.ev for _, e in q.queue}
+    require(len(evs) == len(rows), "one_session_per_clipped_row", lambda: "%d sessions for %d clipped rows" % (len(evs), len(rows)))
+    changed = False
+    for i, w in enumerate(want):
+        ev = evs["session_%d" % i]
+        pph = F(60) / F(period)
+        a_fl, a_amb = floor_guard(F(w[0]) * pph)
+        d_fl, d_amb = floor_guard((F(w[0]) + F(w[1])) * pph)
+        require((ev.arrival == a_fl or (a_amb and abs(ev.arrival - a_fl) == 1)) and (ev.departure == d_fl or (d_amb and abs(ev.departure - d_fl) == 1)), "clipped_row_converted", lambda: "row %d clipped to %r: (arrival, departure) = (%r, %r), expected (%r, %r)" % (i, w, ev.arrival, ev.departure, a_fl, d_fl))
+        require(abs(ev.requested_energy - w[2]) <= 1e-12 * (1 + w[2]), "clipped_energy", lambda: "row %d: requested %r, clipped energy %r" % (i, ev.requested_energy, w[2]))
+        if w != list(map(float, rows[i])):
+            changed = True
+    rec.case(spec, {"clipping"} | ({"some_value_clipped"} if changed else set()), changed)
+
+
+@st.composite
+def clipping_cases(draw):
+    amin = draw(st.sampled_from([0.0, 0.0, 6.0]))
+    bounds = {"amin": amin, "amax": draw(st.sampled_from([24.0, 20.0, amin + 1.0])), "dmin": draw(st.sampled_from([0.0833, 0.5])), "dmax": draw(st.sampled_from([48.0, 8.0])), "emin": draw(st.sampled_from([0.5, 2.0])), "emax": draw(st.sampled_from([150.0, 20.0]))}
+    val = st.one_of(st.floats(-10, 200).map(lambda x: round(x, 3)), st.sampled_from([0.0, 24.0, -1.0, 0.0833, 48.0, 150.0, 0.5]))
+    rows = draw(st.lists(st.tuples(val, val, val).map(list), min_size=1, max_size=5))
+    return {"bounds": bounds, "rows": rows, "period": draw(st.sampled_from([1, 5, 7, 15]))}
+
+
 # --------------------------------------------------------------------------- the fit itself
 
 CAPS = [8, 24, 40, 60, 85, 100]
@@ -506,9 +569,10 @@ def subchecks(tier):
     return [
         Given("documents", doc_cases(), prop_documents, quick=1500, thorough=200000, floors={"max_len_cap_applied": 0.076, "force_feasible_cap_applied": 0.1, "fit": 0.07, "sub_second": 0.2, "instant_on_period_boundary": 0.079, "zero_period_stay": 0.03}),
         Given("stochastic", stochastic_cases(), prop_stochastic, quick=800, thorough=100000, floors={"invalid_row": 0.058, "multi_day": 0.258, "empty_day": 0.1, "fit": 0.07, "max_len_cap_applied": 0.076}),
+        Given("clipping", clipping_cases(), prop_clipping, quick=400, thorough=40000, floors={"some_value_clipped": 0.3}, jobs_quick=2),
         Given("capacity_fit", fit_cases(), prop_fit, quick=1500, thorough=200000, floors={"small_request": 0.2, "period_not_dividing_60": 0.15, "starts_in_rampdown": 0.1}),
     ]
 
 
 def replay(subcheck, spec, rec):
-    return {"documents": prop_documents, "stochastic": prop_stochastic, "capacity_fit": prop_fit}[subcheck](spec, rec)
+    return {"documents": prop_documents, "stochastic": prop_stochastic, "capacity_fit": prop_fit, "clipping": prop_clipping}[subcheck](spec, rec)
